@@ -222,7 +222,7 @@ def run_config(cfg, e):
             obl = [(blk.shape[0] == b - a, 'traces rows'), (blk.shape[1] == nc, 'traces columns'),
                    (m.duration == SymReal(z3.ToReal(core.term_of(nr)) / z3.RealVal(str(RATE))), 'duration')]
             for c in range(nc):
-                want = SymInt(D(core.term_of(((a + j) * ncd + ds.cm[c]) * isz)))
+                want = D(a + j, ds.cm[c])
                 obl.append((implies(g, lam.elem(blk, (j, c)) == want), 'traces column %d is not raw column channel_map[%d]' % (c, c)))
             e.prove_all(obl)
         else:
